@@ -39,7 +39,7 @@ func C17(run *mon.Run) {
 			r := run.Rand(fmt.Sprintf("pair-%d", pi))
 			k1 := randScalar(r)
 			var k2 *big.Int
-			pairKind := [...]string{"distinct", "equal", "negated", "identity-left", "identity-right", "distinct"}[pi%6]
+			pairKind := [...]string{"distinct", "equal", "negated", "identity-left", "identity-right", "distinct", "identity-both", "jacobian-left", "jacobian-right", "jacobian-both"}[pi%10]
 			switch pairKind {
 			case "equal":
 				k2 = new(big.Int).Set(k1)
@@ -56,6 +56,17 @@ func C17(run *mon.Run) {
 				pk1, kk1 = idPk, big.NewInt(0)
 			case "identity-right":
 				pk2, kk2 = idPk, big.NewInt(0)
+			case "identity-both":
+				pk1, kk1, pk2, kk2 = idPk, big.NewInt(0), idPk, big.NewInt(0)
+				if pi%20 >= 10 {
+					pk2, _ = crypto.RemoveBLSPublicKeys(sk2v.PublicKey(), []crypto.PublicKey{sk2v.PublicKey()})
+				}
+			case "jacobian-left":
+				pk1 = jacobianForm(pk1, r)
+			case "jacobian-right":
+				pk2 = jacobianForm(pk2, r)
+			case "jacobian-both":
+				pk1, pk2 = jacobianForm(pk1, r), jacobianForm(pk2, r)
 			}
 			data := mon.RandBytes(r, 1+r.IntN(200))
 			data2 := append(append([]byte{}, data...), 1)
